@@ -6,35 +6,56 @@ param = import_param()
 
 
 class S(param.Parameterized):
-    v = param.Integer(0)
+    v = param.Integer(0, allow_None=True)
     w = param.Integer(1)
 
     @param.depends("v")
     def plus_one(self):
-        return self.v + 1
+        return _inc(self.v)
+
+
+class SClamp(S):
+    """a source that corrects its own value while the assignment is still being dispatched"""
+    @param.depends("v", watch=True)
+    def _clamp(self):
+        if self.v is not None and self.v > 4:
+            self.v = 4
 
 
 class T(param.Parameterized):
     p = param.Integer(1, bounds=(0, 5), allow_refs=True)
     q = param.Integer(1, bounds=(0, 5), allow_refs=True)
     r = param.List([7, 7], allow_refs=True, nested_refs=True)
+    k = param.Integer(1, bounds=(0, 5), allow_refs=True, constant=True)
+
+
+class TShared(param.Parameterized):
+    p = param.Integer(1, bounds=(0, 5), allow_refs=True, per_instance=False)
+    q = param.Integer(1, bounds=(0, 5), allow_refs=True, per_instance=False)
+    r = param.List([7, 7], allow_refs=True, nested_refs=True, per_instance=False)
+    k = param.Integer(1, bounds=(0, 5), allow_refs=True, constant=True, per_instance=False)
 
 
 def _inc(v):
-    return v + 1
+    return None if v is None else v + 1
 
 
 def _add(a, b):
-    return a + b
+    return None if a is None or b is None else a + b
+
+
+def V(tok):
+    return None if tok == -1 else tok
 
 
 class System:
     def __init__(self, beh, opts):
         st = beh["steps"][0]["act"]
         src = _simple_map(st["src"])
-        self.s = {i: S(v=src[i]) for i in (1, 2)}
+        SC = SClamp if st.get("clamp") else S
+        self.s = {i: SC(v=V(src[i])) for i in (1, 2)}
         kw = {n: self.mkref(r) for n, r in st["link"].items() if r["k"] != "none"}
-        self.t = T(**kw)
+        self.t = (T if opts.get("perinst", True) else TShared)(**kw)
         self.cm = None
         self.kf = set()
         self.tolerate = set(opts.get("tolerate", ()))
@@ -52,7 +73,7 @@ class System:
         if k == "bind2":
             return param.bind(_add, self.s[1].param.v, self.s[2].param.v)
         if k == "rx":
-            return self.s[r["s"]].param.v.rx() + 1
+            return self.s[r["s"]].param.v.rx().rx.pipe(_inc)
         if k == "nested":
             return [self.s[r["s"]].param.v, 7]
         raise ValueError(k)
@@ -67,12 +88,15 @@ class System:
                 try:
                     so = self.s[a["i"]]
                     if a["both"]:
-                        so.param.update(v=a["v"], w=a["w"])
+                        if a["order"] == "vw":
+                            so.param.update(v=V(a["v"]), w=a["w"])
+                        else:
+                            so.param.update(w=a["w"], v=V(a["v"]))
                     else:
-                        if so.v != a["v"]:
-                            so.v = a["v"]
                         if so.w != a["w"]:
                             so.w = a["w"]
+                        else:
+                            so.v = V(a["v"])
                 except ValueError:
                     return "invalid"
             elif n == "ref":
@@ -85,14 +109,14 @@ class System:
             elif n == "exitupd":
                 self.cm.__exit__(None, None, None)
                 self.cm = None
-        except ValueError:
+        except (ValueError, TypeError):
             return "rejected"
         return "ok"
 
     def obs(self):
         t = self.t
         r = t.r
-        rv = 100 + r[0] if isinstance(r, list) and len(r) == 2 and r[1] == 7 and isinstance(r[0], int) else ("?", repr(r))
+        rv = (99 if r[0] is None else 100 + r[0]) if isinstance(r, list) and len(r) == 2 and r[1] == 7 and (r[0] is None or isinstance(r[0], int)) else ("?", repr(r))
         watched = []
         sync = getattr(type(t.param), "_sync_refs", None)
         for i, s in self.s.items():
@@ -107,7 +131,7 @@ class System:
                             seenw.append(w)
                             cnt += 1
             watched.append((i, cnt))
-        return {"val": {"p": t.p, "q": t.q, "r": rv}, "watched": watched}
+        return {"val": {"p": t.p, "q": t.q, "r": rv, "k": t.k}, "watched": watched}
 
     def check(self, st, ret, got):
         name = st["act"]["name"]
